@@ -378,6 +378,17 @@ func c04PointCase(t *rapid.T, ev *evProp, gi *GroupInfo) {
 	if member, why, ok := c04Member(gi, reenc); ok && !member {
 		violationOrKnown(t, ev, key("non-member-accepted"), "accepted a value outside the promised set (%s); re-encoding %x\n%s", why, reenc, ctx)
 	}
+	// an accepted value is a group element like any other: the same element reached through arithmetic
+	// (p + O) must have the same encoding (a decoder that keeps an unreduced coordinate and an encoder
+	// that trusts "already normalised" would hand the hostile bytes back)
+	if pn := safely(func() {
+		twin := newPoint(gi).Add(p, nullPoint(gi))
+		if tb := mustMarshal(t, twin); twin.Equal(p) && !bytes.Equal(tb, reenc) {
+			violationOrKnown(t, ev, key("reencode-noncanonical"), "an accepted point re-encodes as %x but the Equal point p+O encodes as %x\n%s", reenc, tb, ctx)
+		}
+	}); pn != "" {
+		violationOrKnown(t, ev, key("use-panic"), "p+O on an accepted value panicked: %s\n%s", pn, ctx)
+	}
 	q := g.Point()
 	if err := q.UnmarshalBinary(reenc); err != nil {
 		violationOrKnown(t, ev, key("reencode-roundtrip"), "decoding the re-encoding %x of an accepted point fails: %v\n%s", reenc, err, ctx)
